@@ -185,19 +185,26 @@ theorem C05_stanza_ns (cfg : Cfg) (fresh : String) (n : Name) (as : List Attr)
     · right; right; exact h1
     · simp [h1] at h
 
-/-- every outgoing stanza carries a non-empty id -/
+theorem isPlain_iff (a : Attr) (l : String) : isPlain a l = true ↔ a.name = ⟨"", l⟩ := by
+  obtain ⟨⟨sp, lo⟩, v⟩ := a
+  simp [isPlain]
+
+/-- every outgoing stanza carries a non-empty id: THE `id` attribute, full name (no namespace) —
+round E: the statement was about any attribute with the local name `id` before, which `xml:id`
+satisfies (review A-1) -/
 theorem C05_id_nonempty (cfg : Cfg) (fresh : String) (n : Name) (as : List Attr)
     (hs : isStanzaEmptySpace n = true) (hns : cfg.ns ≠ "") (hf : fresh ≠ "") :
-    ∃ a ∈ startAttrs (encStart cfg fresh 1 n as), a.name.loc = "id" ∧ a.value ≠ "" := by
+    ∃ a ∈ startAttrs (encStart cfg fresh 1 n as), a.name = ⟨"", "id"⟩ ∧ a.value ≠ "" := by
   rw [C05_stanza_attrs cfg fresh n as hs hns]
   by_cases hfound : found as "id" = true
-  · simp only [found, List.any_eq_true, Bool.and_eq_true, beq_iff_eq, bne_iff_ne, ne_eq] at hfound
+  · simp only [found, List.any_eq_true, Bool.and_eq_true, bne_iff_ne, ne_eq] at hfound
     obtain ⟨a, ha, hl, hv⟩ := hfound
-    refine ⟨a, ?_, hl, hv⟩
+    refine ⟨a, ?_, (isPlain_iff a "id").1 hl, hv⟩
     simp only [List.mem_append, List.mem_filter]
     left; left
     refine ⟨ha, ?_⟩
-    simp [keepAttr, notXmlns, hl, hv]
+    have hn := (isPlain_iff a "id").1 hl
+    simp [keepAttr, notXmlns, isPlain, hn, hv]
   · refine ⟨idAttr fresh, ?_, rfl, hf⟩
     simp [hfound]
 
@@ -205,18 +212,19 @@ theorem C05_id_nonempty (cfg : Cfg) (fresh : String) (n : Name) (as : List Attr)
 the caller's, else the encoder's -/
 theorem C05_from_cfg (cfg : Cfg) (fresh : String) (n : Name) (as : List Attr)
     (hs : isStanzaEmptySpace n = true) (hns : cfg.ns ≠ "") (hfrom : cfg.from_ ≠ "") :
-    ∃ a ∈ startAttrs (encStart cfg fresh 1 n as), a.name.loc = "from" ∧ a.value ≠ "" ∧
+    ∃ a ∈ startAttrs (encStart cfg fresh 1 n as), a.name = ⟨"", "from"⟩ ∧ a.value ≠ "" ∧
       (found as "from" = false → a.value = cfg.from_) := by
   rw [C05_stanza_attrs cfg fresh n as hs hns]
   by_cases hfound : found as "from" = true
   · have hfound' := hfound
-    simp only [found, List.any_eq_true, Bool.and_eq_true, beq_iff_eq, bne_iff_ne, ne_eq] at hfound
+    simp only [found, List.any_eq_true, Bool.and_eq_true, bne_iff_ne, ne_eq] at hfound
     obtain ⟨a, ha, hl, hv⟩ := hfound
-    refine ⟨a, ?_, hl, hv, fun h => by simp [hfound'] at h⟩
+    have hn := (isPlain_iff a "from").1 hl
+    refine ⟨a, ?_, hn, hv, fun h => by simp [hfound'] at h⟩
     simp only [List.mem_append, List.mem_filter]
     left; left
     refine ⟨ha, ?_⟩
-    simp [keepAttr, notXmlns, hl, hv]
+    simp [keepAttr, notXmlns, isPlain, hn, hv]
   · refine ⟨fromAttr cfg, ?_, rfl, hfrom, fun _ => rfl⟩
     simp [hfound, hfrom]
 
@@ -260,7 +268,7 @@ it is exactly the address `LocalAddr()` reports -/
 theorem C05_from_s2s (a : Addrs) (fresh : String) (n : Name) (as : List Attr)
     (hs : isStanzaEmptySpace n = true) (hl : a.localAddr ≠ "") :
     ∃ x ∈ startAttrs (encStart (sessionCfg genFromSource nsServer a) fresh 1 n as),
-      x.name.loc = "from" ∧ x.value ≠ "" ∧ (found as "from" = false → x.value = a.localAddr) := by
+      x.name = ⟨"", "from"⟩ ∧ x.value ≠ "" ∧ (found as "from" = false → x.value = a.localAddr) := by
   rw [C05_gen_from_source.1]
   have hc : sessionCfg .localAddr nsServer a = ⟨nsServer, a.localAddr⟩ := by
     simp [sessionCfg, FromSource.pick, Addrs.localAddr]
@@ -279,7 +287,7 @@ theorem C05_from_s2s_fails_out_from :
 /-- on a client stream (no encoder address) no `from` is invented -/
 theorem C05_from_c2s (cfg : Cfg) (fresh : String) (n : Name) (as : List Attr)
     (hs : isStanzaEmptySpace n = true) (hns : cfg.ns ≠ "") (hfrom : cfg.from_ = "")
-    (a : Attr) (ha : a ∈ startAttrs (encStart cfg fresh 1 n as)) (hl : a.name.loc = "from") : a ∈ as := by
+    (a : Attr) (ha : a ∈ startAttrs (encStart cfg fresh 1 n as)) (hl : a.name = ⟨"", "from"⟩) : a ∈ as := by
   rw [C05_stanza_attrs cfg fresh n as hs hns] at ha
   simp only [hfrom, bne_self_eq_false, Bool.false_and, List.append_nil, List.mem_append,
     List.mem_filter, Bool.false_eq_true, if_false] at ha
@@ -289,28 +297,81 @@ theorem C05_from_c2s (cfg : Cfg) (fresh : String) (n : Name) (as : List Attr)
     · simp only [List.mem_singleton] at ha; subst ha; simp [idAttr] at hl
     · simp at ha
 
-/-- nothing else is altered: every attribute other than `id`, `from`, `xmlns` is passed through,
-in order, and none is added -/
+/-- the three attributes the encoder may touch, by FULL name -/
+def touchable (a : Attr) : Bool := isPlain a "id" || isPlain a "from" || isPlain a "xmlns"
+
+/-- nothing else is altered: every attribute other than `id`, `from`, `xmlns` (the attributes
+without a namespace of these names; `xml:id`, `{urn:x}from`, `{urn:x}xmlns` are "other") is
+passed through, in order, and none is added -/
 theorem C05_other_attrs_kept (cfg : Cfg) (fresh : String) (n : Name) (as : List Attr)
     (hs : isStanzaEmptySpace n = true) (hns : cfg.ns ≠ "") :
-    (startAttrs (encStart cfg fresh 1 n as)).filter
-        (fun a => a.name.loc != "id" && a.name.loc != "from" && a.name.loc != "xmlns") =
-      as.filter (fun a => a.name.loc != "id" && a.name.loc != "from" && a.name.loc != "xmlns") := by
+    (startAttrs (encStart cfg fresh 1 n as)).filter (fun a => !touchable a) =
+      as.filter (fun a => !touchable a) := by
   rw [C05_stanza_attrs cfg fresh n as hs hns]
   simp only [List.filter_append, List.filter_filter]
   have e1 : (if (cfg.from_ != "" && !found as "from") = true then [fromAttr cfg] else []).filter
-      (fun a => a.name.loc != "id" && a.name.loc != "from" && a.name.loc != "xmlns") = [] := by
-    split <;> simp [fromAttr]
+      (fun a => !touchable a) = [] := by
+    split <;> simp [fromAttr, touchable, isPlain]
   have e2 : (if (!found as "id") = true then [idAttr fresh] else []).filter
-      (fun a => a.name.loc != "id" && a.name.loc != "from" && a.name.loc != "xmlns") = [] := by
-    split <;> simp [idAttr]
+      (fun a => !touchable a) = [] := by
+    split <;> simp [idAttr, touchable, isPlain]
   rw [e1, e2]
   simp only [List.append_nil]
   apply List.filter_congr
   intro a _
-  simp only [keepAttr, notXmlns]
-  by_cases h1 : a.name.loc = "id" <;> by_cases h2 : a.name.loc = "from" <;>
-    by_cases h3 : a.name.loc = "xmlns" <;> simp [h1, h2, h3]
+  simp only [keepAttr, notXmlns, touchable, isPlain]
+  by_cases h0 : a.name.space = "" <;> by_cases h1 : a.name.loc = "id" <;> by_cases h2 : a.name.loc = "from" <;>
+    by_cases h3 : a.name.loc = "xmlns" <;> simp [h0, h1, h2, h3]
+
+/-- **namespaced attributes are never touched**, at any depth, stanza or not: the attributes
+that carry a namespace (`xml:lang`, `xml:id`, `{urn:x}id`, `{urn:x}from`, `{urn:x}xmlns`, …) of
+the start element written are exactly the caller's, in order (round E) -/
+theorem C05_namespaced_attrs_untouched (cfg : Cfg) (fresh : String) (d : Int) (n : Name) (as : List Attr) :
+    (startAttrs (encStart cfg fresh d n as)).filter (fun a => a.name.space != "") =
+      as.filter (fun a => a.name.space != "") := by
+  have hdrop : ∀ (m : Name) (l : List Attr),
+      (dropXmlns m l).filter (fun a => a.name.space != "") = l.filter (fun a => a.name.space != "") := by
+    intro m l
+    unfold dropXmlns
+    split
+    · rw [List.filter_filter]
+      apply List.filter_congr
+      intro a _
+      by_cases h0 : a.name.space = "" <;> simp [notXmlns, h0]
+    · rfl
+  unfold encStart
+  split
+  · simp only [startAttrs, hdrop, completeAttrs, List.filter_append, List.filter_filter]
+    have e1 : (if (cfg.from_ != "" && !found as "from") = true then [fromAttr cfg] else []).filter
+        (fun a => a.name.space != "") = [] := by
+      split <;> simp [fromAttr]
+    have e2 : (if (!found as "id") = true then [idAttr fresh] else []).filter
+        (fun a => a.name.space != "") = [] := by
+      split <;> simp [idAttr]
+    rw [e1, e2]
+    simp only [List.append_nil]
+    apply List.filter_congr
+    intro a _
+    by_cases h0 : a.name.space = "" <;> simp [keepAttr, isPlain, h0]
+  · simp only [startAttrs, hdrop]
+
+def xmlid : Attr := ⟨⟨"http://www.w3.org/XML/1998/namespace", "id"⟩, "x1"⟩
+def nsfrom : Attr := ⟨⟨"urn:a", "from"⟩, "o"⟩
+def nsid : Attr := ⟨⟨"urn:a", "id"⟩, ""⟩
+
+/-- the code before `fix: the stanza encoder takes any attribute with the local name …`
+(identification by local name): `<iq xml:id="x1">` goes out WITHOUT an id attribute,
+`{urn:a}from` suppresses the from of a server-to-server stanza, and an empty `{urn:a}id` is
+deleted — the three clauses fail for that encoder -/
+theorem C05_local_name_matching_fails :
+    (∀ a ∈ startAttrs (encStartLocal ⟨nsClient, ""⟩ "ID#" 1 ⟨"", "iq"⟩ [xmlid]), a.name ≠ ⟨"", "id"⟩) ∧
+    (∀ a ∈ startAttrs (encStartLocal ⟨nsServer, "me.example"⟩ "ID#" 1 ⟨"", "message"⟩ [nsfrom]), a.name ≠ ⟨"", "from"⟩) ∧
+    (∀ a ∈ startAttrs (encStartLocal ⟨nsClient, ""⟩ "ID#" 1 ⟨"", "presence"⟩ [nsid]), a ≠ nsid) ∧
+    -- the repaired encoder on the same inputs
+    (∃ a ∈ startAttrs (encStart ⟨nsClient, ""⟩ "ID#" 1 ⟨"", "iq"⟩ [xmlid]), a.name = ⟨"", "id"⟩ ∧ a.value = "ID#") ∧
+    (∃ a ∈ startAttrs (encStart ⟨nsClient, ""⟩ "ID#" 1 ⟨"", "iq"⟩ [xmlid]), a = xmlid) ∧
+    (∃ a ∈ startAttrs (encStart ⟨nsClient, ""⟩ "ID#" 1 ⟨"", "presence"⟩ [nsid]), a = nsid) := by
+  decide
 
 /-- an element that is not a stanza, or is not at top level, only loses `xmlns` attributes when
 it is namespaced -/
@@ -329,20 +390,22 @@ without namespace plus explicit `xmlns` attribute included): the start tag never
 default namespace twice -/
 theorem C05_single_ns_declaration (cfg : Cfg) (fresh : String) (d : Int) (n : Name) (as : List Attr)
     (m : Name) (hm : tokName (encStart cfg fresh d n as) = some m) (hsp : m.space ≠ "") :
-    ∀ a ∈ startAttrs (encStart cfg fresh d n as), a.name.loc ≠ "xmlns" := by
+    ∀ a ∈ startAttrs (encStart cfg fresh d n as), a.name ≠ ⟨"", "xmlns"⟩ := by
   unfold encStart at hm ⊢
   by_cases hc : (d == 1 && isStanzaEmptySpace n) = true
   · rw [if_pos hc] at hm ⊢
     simp only [tokName, Option.some.injEq] at hm
     simp only [startAttrs, dropXmlns, hm, bne_iff_ne, ne_eq, hsp, not_false_eq_true, if_true]
-    intro a ha
-    simpa [notXmlns] using (List.mem_filter.mp ha).2
+    intro a ha hn
+    have := (List.mem_filter.mp ha).2
+    simp [notXmlns, hn] at this
   · rw [if_neg hc] at hm ⊢
     simp only [tokName, Option.some.injEq] at hm
     subst hm
     simp only [startAttrs, dropXmlns, bne_iff_ne, ne_eq, hsp, not_false_eq_true, if_true]
-    intro a ha
-    simpa [notXmlns] using (List.mem_filter.mp ha).2
+    intro a ha hn
+    have := (List.mem_filter.mp ha).2
+    simp [notXmlns, hn] at this
 
 /-- the order of the two steps matters: with the `xmlns` loop BEFORE the stamping step a
 top-level `<message xmlns="jabber:client">` given with no namespace in its name keeps the
